@@ -338,7 +338,13 @@ class Lark(Serialize, Generic[_Return_T]):
                 if not grammar.isascii():
                     raise ConfigurationError("Grammar must be ascii only, when use_bytes=True")
 
-            if self.options.cache:
+            use_cache = self.options.cache
+            if use_cache and self.options.edit_terminals is not None:
+                # The callback can't be part of the cache key, but its effect would be stored in the cache
+                logger.warning("The cache option is ignored when edit_terminals is used")
+                use_cache = False
+
+            if use_cache:
                 if self.options.parser != 'lalr':
                     raise ConfigurationError("cache only works with parser='lalr' for now")
 
